@@ -8,5 +8,8 @@ ASSUMPTIONS = []
 def obligations(ctx, cfg):
     q = cfg['tier'] == 'quick'
     nb = 3 if q else 5
+    from props.C10 import Handler, req_pull
+    h = Handler(ctx, 'subscriber', 'pull', req_pull)
+    h.id = 'C15.b/d-pull-handler'
     return [StepPull(ctx, 1, nb, 0, 'batch', 'C15.a/c'),
-            StepPull(ctx, 0, nb, 0, 'batch', 'C15.a-len64', lazy_len=True)]
+            StepPull(ctx, 0, nb, 0, 'batch', 'C15.a-len64', lazy_len=True), h]
